@@ -22,7 +22,6 @@ import (
 	"net/http"
 	"path"
 	"path/filepath"
-	"strconv"
 	"strings"
 	"sync"
 	"text/template"
@@ -115,8 +114,10 @@ func (t Templates) ServeHTTP(w http.ResponseWriter, r *http.Request) (int, error
 		// copy the buffered header into the real ResponseWriter
 		rb.CopyHeader()
 
-		// set the actual content length now that the template was executed
-		w.Header().Set("Content-Length", strconv.Itoa(buf.Len()))
+		// the buffered content length was that of the template source;
+		// http.ServeContent below sets the length of what it sends (the
+		// rendered page, a range of it, or nothing for a failed precondition)
+		w.Header().Del("Content-Length")
 
 		// delete the headers related to cache
 		w.Header().Del("ETag")
